@@ -131,6 +131,10 @@ public:
   void probe(const std::string& name) { ++probes[name]; }
   void state(uint64_t h) { if (stateSink) stateSink->push_back(h); }
   [[noreturn]] void fail(const std::string& cls, const std::string& sig, const std::string& detail);
+  // For harnesses that can re-synchronise their model: if `sig` is a listed known finding, count the hit and return true
+  // (the run continues); otherwise raise the violation.
+  bool knownOrFail(const std::string& prop, const std::string& cls, const std::string& sig, const std::string& detail);
+  std::map<std::string, long> knownHits;
   // convenience: fail when cond is false
   void check(bool cond, const std::string& cls, const std::string& sig, const std::string& detail) { if (!cond) fail(cls, sig, detail); }
 };
